@@ -5,7 +5,7 @@
    version field), [at_version k d] (a database recorded at version k).  No hypothesis on the recorded ids
    any more: the case of an id that conflicts with the compiled one is carried through the invariant
    (then nothing is ever committed and nobody returns Ok, C11_conflict_blocks_everyone). *)
-From VV.MIG Require Import Spec SeqP ShapeP ConcP TermP SoloP.
+From VV.MIG Require Import Spec SeqP ShapeP ConcP TermP SoloP BridgeP.
 
 (* for any number n of instances and any schedule: the committed database is the original one (up to the
    bookkeeping table) or exactly the result of ONE sequential run *)
@@ -120,6 +120,15 @@ Proof. exact verbose_same_steps. Qed.
 Print Assumptions C11_verbose_same_steps.
 Check C11_verbose_same_steps : forall b p vt ms sched s,
   steps (mkOpts b p vt true) ms sched s = steps (mkOpts b p vt false) ms sched s.
+
+(* K-mig evaluates the extended interleaving semantics [steps_x] (Model/MigratorX.v: statements with their own
+   transaction control); on every history without such statements it is the [steps] of the theorems above *)
+Theorem C11_plain_steps_x_is_steps : forall o ms sched fs d, plain_ms o ms = true ->
+  steps_x o ms sched (init_sys_x fs d) = lift_sys (steps o ms sched (init_sys_faults fs d)).
+Proof. exact steps_x_plain. Qed.
+Print Assumptions C11_plain_steps_x_is_steps.
+Check C11_plain_steps_x_is_steps : forall o ms sched fs d, plain_ms o ms = true ->
+  steps_x o ms sched (init_sys_x fs d) = lift_sys (steps o ms sched (init_sys_faults fs d)).
 
 (* non-vacuity: three instances on a fresh database; under one schedule the first wins and the others get
    Busy, under another a reader blocks the writer's COMMIT and a later instance does the work; under a
